@@ -6,7 +6,9 @@
 set -u
 ID="$1"; REPO="$(cd "$2" && pwd)"
 VERIF="$(cd "$(dirname "$0")/.." && pwd)"
-case "$ID" in C02) T=c02_decode; RUNS=${VERIF_FUZZ_RUNS:-400000};; C11) T=c11_field_bytes; RUNS=${VERIF_FUZZ_RUNS:-2000000};; C12) T=c12_diff; RUNS=${VERIF_FUZZ_RUNS:-150000};; *) exit 0;; esac
+# executions per job (8 parallel jobs); fixed work, not a time quota
+case "$ID" in C02) T=c02_decode; RUNS=${VERIF_FUZZ_RUNS:-40000};; C11) T=c11_field_bytes; RUNS=${VERIF_FUZZ_RUNS:-400000};; C12) T=c12_diff; RUNS=${VERIF_FUZZ_RUNS:-15000};; *) exit 0;; esac
+JOBS=${VERIF_FUZZ_JOBS:-8}
 if [ "$REPO" = "/repo" ]; then KEY=main; else KEY="alt-$(printf '%s' "$REPO" | cksum | cut -d' ' -f1)"; fi
 BUILD="$VERIF/build/$KEY"
 [ -f "$BUILD/Cargo.toml" ] || { echo "run-fuzz: harness not built" >&2; exit 2; }
@@ -15,7 +17,7 @@ sed -e "s#@VERIF@#$VERIF#g" "$VERIF/fuzz/Cargo.toml.in" > "$BUILD/fuzz/Cargo.tom
 cmp -s "$BUILD/fuzz/Cargo.toml.new" "$BUILD/fuzz/Cargo.toml" || mv "$BUILD/fuzz/Cargo.toml.new" "$BUILD/fuzz/Cargo.toml"
 [ -f "$BUILD/fuzz/Cargo.lock" ] || cp "$VERIF/fuzz/Cargo.lock" "$BUILD/fuzz/Cargo.lock" 2>/dev/null || cp "$BUILD/Cargo.lock" "$BUILD/fuzz/Cargo.lock"
 export CARGO_NET_OFFLINE=true VERIF_REPO_DIR="$REPO" VERIF_DIR="$VERIF" RUSTFLAGS="--cfg decaf377_verif -Awarnings"
-if ! (cd "$BUILD" && cargo +nightly fuzz build -O --fuzz-dir fuzz "$T" >"$BUILD/fuzz-build.log" 2>&1); then
+if ! (cd "$BUILD" && cargo +nightly fuzz build -O --sanitizer none --fuzz-dir fuzz "$T" >"$BUILD/fuzz-build.log" 2>&1); then
   echo "run-fuzz: fuzz build failed (see $BUILD/fuzz-build.log)" >&2; tail -20 "$BUILD/fuzz-build.log" >&2; exit 2
 fi
 BIN="$BUILD/fuzz/target/x86_64-unknown-linux-gnu/release/$T"
@@ -24,8 +26,10 @@ rm -rf "$CORPUS" "$ART"; mkdir -p "$CORPUS" "$ART"
 cp "$VERIF/fuzz/seeds/$ID"/* "$CORPUS/" 2>/dev/null
 SEED="${VERIF_SEED:-0}"; [ "$SEED" = 0 ] && SEED=1
 OUTDIR="${VERIF_OUT_DIR:-$VERIF}"
-timeout -k 10 7200 "$BIN" "$CORPUS" -runs="$RUNS" -seed="$SEED" -len_control=0 -max_len=256 -artifact_prefix="$ART/" -print_final_stats=1 >"$BUILD/fuzz-run-$T.log" 2>&1; rc=$?
-execs=$(grep -E "stat::number_of_executed_units" "$BUILD/fuzz-run-$T.log" | awk '{print $2}')
+RUNDIR="$BUILD/fuzz/run-$T"; rm -rf "$RUNDIR"; mkdir -p "$RUNDIR"
+(cd "$RUNDIR" && timeout -k 10 7200 "$BIN" "$CORPUS" -runs="$RUNS" -jobs="$JOBS" -workers="$JOBS" -seed="$SEED" -len_control=0 -max_len=256 -artifact_prefix="$ART/" -print_final_stats=1 >"$BUILD/fuzz-run-$T.log" 2>&1); rc=$?
+cat "$RUNDIR"/fuzz-*.log >> "$BUILD/fuzz-run-$T.log" 2>/dev/null
+execs=$(grep -E "stat::number_of_executed_units" "$BUILD/fuzz-run-$T.log" | awk '{s+=$2} END{print s+0}')
 echo "$ID libFuzzer target $T: executions=${execs:-?} exit=$rc"
 # append the campaign summary to the evidence file of this property
 python3 - "$OUTDIR/evidence/$ID.json" "$T" "${execs:-0}" "$rc" <<'PY'
